@@ -17,6 +17,7 @@ import json
 import os
 import random
 import re
+import sys
 import time
 from concurrent.futures import ThreadPoolExecutor
 
@@ -358,6 +359,15 @@ def signature(run, trace, badl, clause, fin):
         # stream(amt=None) on a body that is not chunked is a loop around read()
         if (first_bad == "read" or (first_bad == "stream" and e["n"] == 0 and f["framing"] != "chunked")) and partial_before:
             sig = "read-all-after-partial-read-with-content-decoding"
+    if clause == "EmptyAfterEnd" and f["decoding"] and e and not e["err"] and sig == "other":
+        # the other face of D6: read() returned (signalling the end) without the buffered bytes, which then come
+        # out of a later sized read
+        ends = [j for j, x in enumerate(ev[:badl - 1]) if x["end"] and not x["err"]]
+        if ends:
+            j = ends[0]
+            is_readall = ev[j]["op"] == "read" or (ev[j]["op"] == "stream" and ev[j]["n"] == 0 and f["framing"] != "chunked")
+            if is_readall and any(x["op"] in ("readn", "readinto", "read1n", "read1", "stream") and x["len"] > 0 for x in ev[:j]):
+                sig = "read-all-after-partial-read-with-content-decoding"
     if clause == "IntactNeverRaises" and f["decoding"] and e and e["err"] == "raw:Deadline" and e["op"] == "stream" \
             and e["n"] == 0 and any(x["op"] in ("readn", "readinto", "read1n", "read1") and x["len"] > 0 for x in ev[:badl - 1]):
         sig = "stream-without-amount-after-partial-read-never-ends"     # read() never drains the stale buffer (D6)
@@ -549,7 +559,11 @@ def run_all(rep, pool, runs, findings, counters, label, per=400):
     """Execute + validate `runs` on the process pool; account results on `rep`."""
     shards = [runs[i:i + per] for i in range(0, len(runs), per)]
     t0 = time.time()
-    res = pool.map(shard_worker, shards)
+    res = []
+    for k, o in enumerate(pool.imap(shard_worker, shards)):
+        res.append(o)
+        if os.environ.get("VERIF_PROGRESS"):
+            print(f"[{label}] shard {k + 1}/{len(shards)} {time.time() - t0:.0f}s", file=sys.stderr, flush=True)
     nrun = 0
     drift_unexplained = 0
     for sh, o in zip(shards, res):
